@@ -53,7 +53,7 @@ def run(ck: Check) -> None:
             payload = gen.root_md(ks[:1], 1, [gen.key(7)], 1, version=rng.randint(1, 5))
             env = gen.envelope(payload)
             gen.sign_env(env, ks, rng.random() < 0.5, rng)
-        ops = [rng.choice(["write", "load", "sign-raw", "sign-gpg", "write", "load", "retype-write", "samesize-write"]) for _ in range(rng.randint(3, 10))]
+        ops = [rng.choice(["write", "load", "sign-raw", "sign-gpg", "write", "load", "retype-write", "samesize-write", "load-mutate-load"]) for _ in range(rng.randint(3, 10))]
         if i % 5 == 1:
             ops.insert(rng.randrange(len(ops) + 1), "sign-gpg")
         mem = copy.deepcopy(env)
@@ -97,6 +97,22 @@ def run(ck: Check) -> None:
                     ck.oracle_checks += 1
                     if b != gen.oracle_bytes(mem):
                         ck.violation("writing a changed value (1 -> 1.0, True -> 1, ...) left the file with the old contents / a non-canonical file", {"value": proto.enc(mem)[:800]}, "retype-write-stale")
+                        ok = False
+                    ck.evaluations += 1
+                    ck.count("fileop:" + op)
+                    continue
+                if op == "load-mutate-load":
+                    # what a load returns is the file's content, whatever an earlier caller did to the object *it* got (no sharing between loads)
+                    first = impl.common.load_metadata_from_file(fn)
+                    want = copy.deepcopy(first)
+                    if isinstance(first.get("signatures"), dict):
+                        first["signatures"][gen.key(12).hex] = gen.raw_entry(gen.key(12), gen.oracle_bytes(first.get("signed")))
+                    first["signed"] = {"tampered": True}
+                    second = impl.common.load_metadata_from_file(fn)
+                    ck.oracle_checks += 1
+                    if second is first or not proto.deep_equal(second, want) or not proto.deep_equal(second, mem):
+                        ck.violation("a second load of an unchanged file reflects in-memory changes made to the result of the first load (shared / cached object)",
+                                     {"value": proto.enc(want)[:800], "second_load": proto.enc(second)[:800]}, "load-shares-object")
                         ok = False
                     ck.evaluations += 1
                     ck.count("fileop:" + op)
@@ -182,6 +198,20 @@ def run(ck: Check) -> None:
             ck.nontrivial_add((proto.enc(env)[:200], tuple(ops)))
         if len(ck.samples) < 5:
             ck.samples.append({"ops": ops, "signers": len(ks)})
+    # any JSON value survives write + load, not only envelopes: top-level strings (also ones that look like JSON text), numbers, arrays, null
+    for v in ["123", "null", '{"a": 1}', "\u00e9", "", " ", '"quoted"', "[1, 2]", 5, -1, 1.5, True, None, [1, "a"], [], {}, "x" * 70, "\ud800", gen.rand_json(rng, 3, [10])]:
+        try:
+            impl.common.write_metadata_to_file(v, fn)
+            b = open(fn, "rb").read()
+            back = impl.common.load_metadata_from_file(fn)
+        except Exception as e:  # noqa: BLE001
+            ck.violation("a file operation on a well-formed JSON value failed", {"value": proto.enc(v)[:300], "error": repr(e)[:200]}, f"fileop-failed:write-any:{type(e).__name__}")
+            continue
+        ck.oracle_checks += 1
+        ck.evaluations += 1
+        ck.count("fileop:write-any-value")
+        if b != gen.oracle_bytes(v) or not proto.deep_equal(back, v):
+            ck.violation("a JSON value does not survive write + load / the file is not its canonical form", {"value": proto.enc(v)[:300], "file": b[:200].hex()}, "write-any-value")
     res = ck.run_cases(ser_cases, "corr:write_metadata_to_file/bytes")
     for r, b in zip(res, ser_expect):
         ck.oracle_checks += 1
